@@ -2,6 +2,8 @@ import CueVerif.Driver.Proto
 import CueVerif.Model.Quote
 import CueVerif.Model.NumLit
 import CueVerif.Model.Ident
+import CueVerif.Driver.C09Token
+import CueVerif.Driver.C09Scan
 namespace CueVerif.Driver.C09
 open CueVerif CueVerif.Driver
 
@@ -103,6 +105,12 @@ def handle (ws : List String) : String :=
     match r.toNat? with
     | some n => boolStr (Quote.isSpace n)
     | none => "bad-op"
-  | _ => "bad-op"
+  | _ =>
+    match C09Token.handle ws with
+    | some a => a
+    | none =>
+      match C09Scan.handle ws with
+      | some a => a
+      | none => "bad-op"
 
 end CueVerif.Driver.C09
